@@ -66,6 +66,31 @@ CHECKS = {
             "runs compared with the in-process tree",
             "JSON encoding/decoding and Node.__eq__ are checked on ~6*10^4 random trees with ~6*10^5 single-difference mutants; ~2000 "
             "CLI runs (file/stdin, --json, default, --replace, --keywords) are compared with the library result. Exploration.", "2/C20"),
+    "C02": ("runtime monitoring: ground-truth-by-construction oracle over generated encoder stacks (chain of nodes, exact spans, independent "
+            "re-scan of the payload, flatten), with per-encoder domain predicates and scan-checked preconditions",
+            "~2*10^4 stacks of height 1-4 per quick run (1-10 thorough) over 21 encoder spellings and >300 distinct adjacent pairs are "
+            "judged against the plaintext chain known by construction. Exploration.", "2/C02"),
+    "C10": ("runtime monitoring: output-validity monitor on every network.* node of every result, producer attribution through the registry tap",
+            "Well-formedness and normalisation of every reported IPv4 / domain / e-mail / URL node are re-checked with independent "
+            "validators and an own percent-normaliser over grammar, near-miss, mutated and soup workloads. Exploration.", "2/C10"),
+    "C11": ("runtime monitoring: ground-truth-by-construction detection oracle (type, canonical value, exact absolute span) plus metamorphic "
+            "relocation of the same indicator",
+            "Ten indicator kinds generated from grammars are embedded at offsets 0..1000 between verified-neutral text; the expected node "
+            "must exist and its sub-tree must not depend on position. Exploration.", "2/C11"),
+    "C12": ("runtime monitoring: independent RFC 3986 splitter / dot-segment / inet_aton / ntpath references compared with every URL and "
+            "Windows-path part child; direct contracts on parse_url and the normalisers",
+            "Every part child of every URL / Windows path node must span exactly its component of the parent's value and carry the "
+            "decoded text and the right label; presence of children asserted on grammar-generated URLs. Exploration.", "2/C12"),
+    "C13": ("runtime monitoring: independent RFC 4648 / hex / xor re-derivation of every labelled node + completeness cases at the boundary of "
+            "each acceptance rule and -bxor key sweep",
+            "Soundness on every base64 / hex / xor node met, completeness on generated encodings (accepted side of each rule) and keys "
+            "0..999. Exploration.", "2/C13"),
+    "C14": ("runtime monitoring: independent re-derivation of every xml / chr / unescape / utf-16 node + completeness over the whole value domains",
+            "Soundness on every such node met; completeness over all byte values, code points incl. surrogates (must be absent), "
+            "malformed escapes, Latin-1 UTF-16 runs, sequences of chr calls. Exploration.", "2/C14"),
+    "C15": ("runtime monitoring: literal-parser re-evaluation of every concatenation / reverse / replace node + generated expressions with known value",
+            "Each dialect's expressions are generated with the Python-level result as ground truth (exact span, type, label, value); "
+            "every such node met elsewhere is re-evaluated when its text lies in the literal domain. Exploration.", "2/C15"),
 }
 
 TODO = {}
